@@ -12,6 +12,7 @@ import (
 	"os"
 	"sort"
 	"strings"
+	"time"
 )
 
 type Ctx struct {
@@ -72,6 +73,27 @@ func guard(f func()) (panicked bool, val any) {
 	}()
 	f()
 	return
+}
+
+// guardT runs f under recover and a wall-clock watchdog. Returns "" (finished), "panic" or "hang".
+// A hung goroutine is abandoned; the caller should treat "hang" as a terminal observation.
+func guardT(d time.Duration, f func()) string {
+	done := make(chan string, 1)
+	go func() {
+		defer func() {
+			if r := recover(); r != nil {
+				done <- "panic"
+			}
+		}()
+		f()
+		done <- ""
+	}()
+	select {
+	case s := <-done:
+		return s
+	case <-time.After(d):
+		return "hang"
+	}
 }
 
 type propFn func(c *Ctx)
